@@ -23,10 +23,26 @@ def _run(prog: Program, rep: Report, tier: str) -> None:
                         'NaN as an input class except for nan_to_num_']
     rep.trusted += ['transfer tables of sa/absint/domain.py']
     wrappers.check_wrappers(prog, rep, 'C06-D1 wrapper-homomorphism')
+    # derived state (caches computed by a constructor) follows its sources -- sa/rules/derived.py
+    from ..rules.derived import check_derived_state, positive_control as _derived_control
+    rep.rule('C06-D6', 'derived state: an attribute the constructor computes from other attributes of the object is recomputed by every method that rebinds one of those attributes (kept alive by a synthetic positive example)')
+    if not _derived_control():
+        rep.error('C06-D6: the synthetic positive example is no longer matched by the rule')
+    rep.analysed['derived_attributes'] = check_derived_state(rep, 'C06-D6 derived-state', prog, [c for mod in ('fggs.indices', 'fggs.multi') for c in prog.module(mod).classes.values()])
     wrappers.check_binary(prog, rep, 'C06-D2 binary-identities')
     from .c06_effects import inplace_discipline
     inplace_discipline(prog, rep)
     negative_dims(prog, rep)
+    from ..rules.negdim import check_dim_slices, positive_control
+    rep.rule('C06-D4b', 'axis arithmetic: in fggs/indices.py a slice bound `dim + c` / `dim - c` computed from a `dim` parameter is reached only with `dim` made non-negative (kept alive by a synthetic positive example)')
+    if not positive_control():
+        rep.error('C06-D4b: the synthetic positive example is no longer matched by the rule')
+    n_dim = 0
+    for f in prog.module('fggs.indices').functions.values():
+        if not f.is_lambda and any(q in f.param_names() for q in ('dim', 'axis', 'dim0', 'dim1')):
+            n_dim += 1
+            check_dim_slices(rep, 'C06-D4b axis-arithmetic', f)
+    rep.floor('C06-D4b functions taking an axis', n_dim, 5)
     dtype_generic_limits(prog, rep)
     constructions_state_default(prog, rep)
 
